@@ -235,11 +235,11 @@ def weave_fn(sc, fb, reach=False):
     it = extract_item(sc, fb.rel, 'fn', name, impl_type=impl_type)
     raw = it['text']
     rules = fb.opts.get('rules')
-    rules = rules.split(',') if rules else ['R0', 'R1', 'R2', 'R3']
+    rules = rules.split(',') if rules else ['R0', 'R1', 'R7', 'R2', 'R3']
     counts = {}
     try:
         # phase A: line-preserving token rewrites
-        text, c = desugar(raw, [r for r in rules if r in ('R0', 'R1')])
+        text, c = desugar(raw, [r for r in rules if r in ('R0', 'R1', 'R7')])
         counts.update(c)
         if text.count('\n') != raw.count('\n'):
             raise WeaveError(f'internal: desugaring changed the line count of {fb.path}')
